@@ -27,7 +27,7 @@ from dvc_data.index import DataIndex, DataIndexEntry, ObjectStorage  # noqa: E40
 from dvc_data.index.checkout import apply, compare  # noqa: E402
 
 FS = LocalFileSystem()
-NAMES = ["a", "b", "data", "ata", "x y", "ü", "a.dir", "z"]
+NAMES = ["a", "b", "data", "ata", "x y", "ü", "a.dir", "z", "win\\style", "a\\b"]
 CONTENTS = [b"", b"one", b"one", b"two\r\n", os.urandom(17), b"x" * 3000]
 
 
